@@ -59,8 +59,14 @@ class Item:
         env = env_cls(loader=ld, **kw)
         env.globals.update(g["env"])
         h = env.get_template("h", globals=g["h"])
-        if C._fields(self.case).get("target") == "lit-warm" and not env.is_async:
-            h.module  # creates and caches the default module
+        if C._fields(self.case).get("target") == "lit-warm":
+            # the helper's default module already exists (cached) before the main template runs
+            if env.is_async:
+                from vf import e4
+
+                e4.run(h._get_default_module_async())
+            else:
+                h.module  # creates and caches the default module
         bound = {}
         for k, v in self.data.items():
             if isinstance(v, C.TemplateRef):
